@@ -45,6 +45,7 @@ type staticMap struct {
 	mt   *types.Map
 	vals []string
 	pres string
+	strSids map[string]bool // constant strings stored as values (content axioms on demand)
 }
 
 type globalTables struct {
@@ -400,11 +401,15 @@ func (ie *initEval) eval(x ast.Expr, t types.Type) []string {
 				vals = append(vals, constArr(arrSort(ks, l.Sort), zeroOfSort(l.Sort)))
 			}
 			pres := constArr(arrSort(ks, sBool), "false")
+			strSids := map[string]bool{}
 			for _, el := range x.Elts {
 				kv := el.(*ast.KeyValueExpr)
 				kt := ie.eval(kv.Key, u.Key())
 				key := kf(Val{T: u.Key(), L: kt})
 				ev := ie.eval(kv.Value, u.Elem())
+				if isString(u.Elem()) {
+					strSids[ev[0]] = true
+				}
 				for li := range vals {
 					vals[li] = sto(vals[li], key, ev[li])
 				}
@@ -414,7 +419,7 @@ func (ie *initEval) eval(x ast.Expr, t types.Type) []string {
 			if ie.w.gt.staticMaps == nil {
 				ie.w.gt.staticMaps = map[uint64]*staticMap{}
 			}
-			ie.w.gt.staticMaps[id] = &staticMap{mt: u, vals: vals, pres: pres}
+			ie.w.gt.staticMaps[id] = &staticMap{mt: u, vals: vals, pres: pres, strSids: strSids}
 			return []string{bvLit(64, id)}
 		}
 		panic("unsupported composite literal type " + t.String())
@@ -427,6 +432,23 @@ func (ie *initEval) eval(x ast.Expr, t types.Type) []string {
 	case *ast.CallExpr:
 		if r, ok := ie.evalKnownCall(x, t); ok {
 			return r
+		}
+	case *ast.SliceExpr:
+		// constant string sliced at constant bounds (generated stringer maps)
+		if tv, ok := info.Types[x.X]; ok && tv.Value != nil && tv.Value.Kind() == constant.String && !x.Slice3 {
+			whole := ie.vc.constVal(types.Typ[types.String], tv.Value).L
+			n := int64(len(constant.StringVal(tv.Value)))
+			lo, hi := int64(0), n
+			okb := true
+			if x.Low != nil {
+				lo, okb = constInt(info, x.Low)
+			}
+			if x.High != nil && okb {
+				hi, okb = constInt(info, x.High)
+			}
+			if okb && 0 <= lo && lo <= hi && hi <= n {
+				return []string{whole[0], bvLit(64, uint64(lo)), bvLit(64, uint64(hi-lo))}
+			}
 		}
 	case *ast.BinaryExpr:
 		// arithmetic on floating-point values built from math.Pow (latlng.go factors)
@@ -638,6 +660,9 @@ func (vc *VC) globalMapTable(m Val) (func(Val) Val, bool) {
 		return nil, false
 	}
 	ks, kf := mapKeySort(sm.mt)
+	for sid := range sm.strSids {
+		vc.needStrContent(sid)
+	}
 	// name the table arrays once per VC
 	base := fmt.Sprintf("SM!%d", id)
 	lay := layoutOf(sm.mt.Elem())
